@@ -65,6 +65,7 @@ structure Cfg where
   dupScalarOverScalar : Bool := true      -- D43s: a scalar whose name is taken by a scalar is silently dropped (the suite declares a Go-registered scalar again)
   dirArgWrapperAccepted : Bool := true    -- D44: directive arguments: List / NonNull of anything pass (`InCoercer`)
   subtypeNarrow : Bool := true            -- D45: covariance only for `T` vs `T!`, lists, non-null — not `Obj!` under `Iface`
+  dupMembersAccepted : Bool := true       -- D89: a union member or an implemented interface may be repeated in a definition (an `extend` that repeats one is refused)
   dirLoopByVisited : Bool := true         -- D83: a directive reached twice by different ways counts as a definition loop
   dirRequiredUnchecked : Bool := true     -- D78: a directive use may leave out a required argument (directive and use in one document)
 
@@ -286,9 +287,11 @@ def ruleInterfaces (cfg : Cfg) (s : Schema) : Bool :=
     | _ => true)
 
 /-- R7: unions have at least one member, all objects -/
-def ruleUnions (s : Schema) : Bool :=
+def ruleUnions (s : Schema) (dupOk : Bool := false) : Bool :=
   s.all (fun d => match d with
-    | .union _ ms _ => !ms.isEmpty && ms.all (fun m => match findType s m with | some (.object ..) => true | _ => false)
+    | .union _ ms _ => !ms.isEmpty && ms.all (fun m => match findType s m with | some (.object ..) => true | _ => false) &&
+        (dupOk || ms.eraseDups.length == ms.length)
+    | .object _ is _ _ => dupOk || is.eraseDups.length == is.length
     | _ => true)
 
 /-- R8: objects, interfaces, enums and input objects are non-empty -/
@@ -395,13 +398,13 @@ def ruleShapes (s : Schema) : Bool :=
 
 def checkAll (cfg : Cfg) (s : Schema) : Bool :=
   ruleRefsDefined s && ruleDirectivesDefined s && ruleUnique cfg s && ruleNames charMap tokenClass s && ruleInOut cfg s &&
-  ruleInterfaces cfg s && ruleUnions s && ruleNonEmpty s && ruleEnumValues s && ruleDirUses cfg s &&
+  ruleInterfaces cfg s && ruleUnions s cfg.dupMembersAccepted && ruleNonEmpty s && ruleEnumValues s && ruleDirUses cfg s &&
   ruleDirectiveDefs s cfg.dirLoopByVisited && ruleShapes s
 
 /-- the property's notion: all rules, no deviation -/
 def strict : Cfg :=
   { fieldDirUsesUnchecked := false, argLocIsInputField := false, dupScalarDropped := false, dupScalarOverScalar := false,
-    dirArgWrapperAccepted := false, subtypeNarrow := false, dirRequiredUnchecked := false, dirLoopByVisited := false }
+    dirArgWrapperAccepted := false, subtypeNarrow := false, dirRequiredUnchecked := false, dirLoopByVisited := false, dupMembersAccepted := false }
 
 def wellFormed (s : Schema) : Bool := checkAll charMap tokenClass strict s
 
